@@ -139,6 +139,8 @@ type genOpts struct {
 	kind                        int  // 0: forward or return cash letters at random, 1: forward only, 2: return only
 	zones                       bool // date members carry a non-UTC zone and a time of day that crosses midnight in UTC
 	mutateP                     int  // percent of fields varied
+	fileBundles                 bool // the file's own Bundles member (JSON "bundle", outside any cash letter, never written) holds bundles too
+	unbuilt                     bool // after building, members the build step derives are set to other valid values (record numbers out of order, control records swapped between bundles): a file as a caller may assemble it without building
 }
 
 // mutateRecord varies the free fields of a valid record, keeping it valid (the real Validate() is
@@ -435,13 +437,88 @@ func genFile(r rng, o genOpts) (*icl.File, error) {
 		}
 		f.AddCashLetter(cl)
 	}
+	if o.fileBundles {
+		for _, cl := range f.CashLetters {
+			for _, b := range cl.Bundles {
+				if r.Intn(2) == 0 || len(f.Bundles) == 0 {
+					var cp icl.Bundle
+					if bs, err := json.Marshal(b); err == nil && json.Unmarshal(bs, &cp) == nil {
+						f.Bundles = append(f.Bundles, cp)
+					}
+				}
+			}
+		}
+	}
 	if err := f.Create(); err != nil {
 		return nil, fmt.Errorf("file create: %w", err)
 	}
 	if o.zones {
 		zoneDates(reflect.ValueOf(f), time.FixedZone("UTC-5", -5*3600))
 	}
+	if o.unbuilt {
+		unbuild(r, f)
+	}
 	return f, nil
+}
+
+// unbuild gives members that the build step derives other VALID values: addendum record numbers in
+// descending or shuffled order, control records exchanged between the bundles of a cash letter. Every record
+// stays valid and canonical; the file is one a caller can hand to the Writer without building it.
+func unbuild(r rng, f *icl.File) {
+	perm := func(n int) []int {
+		p := make([]int, n)
+		for i := range p {
+			p[i] = n - 1 - i
+		}
+		if n > 2 && r.Intn(2) == 0 {
+			p[0], p[1] = p[1], p[0]
+		}
+		return p
+	}
+	for ci := range f.CashLetters {
+		cl := &f.CashLetters[ci]
+		for _, b := range cl.Bundles {
+			for _, cd := range b.Checks {
+				nums := make([]int, len(cd.CheckDetailAddendumA))
+				for i := range nums {
+					nums[i] = cd.CheckDetailAddendumA[i].RecordNumber
+				}
+				for i, j := range perm(len(nums)) {
+					cd.CheckDetailAddendumA[i].RecordNumber = nums[j]
+				}
+				nums = make([]int, len(cd.CheckDetailAddendumC))
+				for i := range nums {
+					nums[i] = cd.CheckDetailAddendumC[i].RecordNumber
+				}
+				for i, j := range perm(len(nums)) {
+					cd.CheckDetailAddendumC[i].RecordNumber = nums[j]
+				}
+			}
+			for _, rd := range b.Returns {
+				nums := make([]int, len(rd.ReturnDetailAddendumA))
+				for i := range nums {
+					nums[i] = rd.ReturnDetailAddendumA[i].RecordNumber
+				}
+				for i, j := range perm(len(nums)) {
+					rd.ReturnDetailAddendumA[i].RecordNumber = nums[j]
+				}
+				nums = make([]int, len(rd.ReturnDetailAddendumD))
+				for i := range nums {
+					nums[i] = rd.ReturnDetailAddendumD[i].RecordNumber
+				}
+				for i, j := range perm(len(nums)) {
+					rd.ReturnDetailAddendumD[i].RecordNumber = nums[j]
+				}
+			}
+		}
+		if n := len(cl.Bundles); n > 1 {
+			first := cl.Bundles[0].BundleControl
+			for i := 0; i+1 < n; i++ {
+				cl.Bundles[i].BundleControl = cl.Bundles[i+1].BundleControl
+			}
+			cl.Bundles[n-1].BundleControl = first
+		}
+	}
 }
 
 // zoneDates rewrites every non-zero date member to 21:30 of the same calendar day in loc (a later day
